@@ -101,12 +101,12 @@ def merge(a, b):
             a[k] = a.get(k, 0) + v
 
 
-def main(tier, seed, prop="C04", worker_fn=None, rule=None, assumptions=None, matcher_fn=None):
+def main(tier, seed, prop="C04", worker_fn=None, rule=None, assumptions=None, matcher_fn=None, corpus_task=False):
     t0 = time.time()
     lean_info, lean_problems = core.lean_stage(prop)
     n = 320 if tier == "quick" else 6000
     chunks = 16 if tier == "quick" else 64
-    tasks = [(n // chunks, seed * 7919 + i) for i in range(chunks)]
+    tasks = ([(-1, 0)] if corpus_task else []) + [(n // chunks, seed * 7919 + i) for i in range(chunks)]
     failures, nfail, stats, samples, distinct = [], 0, {}, [], 0
     with mp.Pool(min(16, os.cpu_count() or 4)) as pool:
         for fails, nf, st, sample, nd in pool.imap_unordered(worker_fn or worker, tasks):
